@@ -11,7 +11,7 @@ from collections import defaultdict
 from collections import namedtuple
 import gzip
 
-from .common import max_range
+from .common import max_range, open_gzipped_text_output
 from .gene_info import TranscriptModel, GeneInfo
 
 logger = logging.getLogger('IsoQuant')
@@ -48,7 +48,7 @@ class GFFPrinter:
         if self.output_r2t:
             self.r2t_fname = os.path.join(outf_prefix, sample_name + r2t_suffix)
             if gzipped:
-                self.out_r2t = gzip.open(self.r2t_fname + ".gz", "wt")
+                self.out_r2t = open_gzipped_text_output(self.r2t_fname + ".gz")
             else:
                 self.out_r2t = open(self.r2t_fname, "w")
             if header:
